@@ -36,7 +36,8 @@ EXTENDS MessageLog
 
 CONSTANTS
   Pids,       \* command identities offered for exact appends (positive integers)
-  ProbePids   \* sequence: the commands every projection looks up
+  ProbePids,  \* sequence: the commands every projection looks up
+  MaxRepl     \* exhaustive runs: proposals per suffix replacement (0..2)
 
 VARIABLES ident, prop
 
@@ -231,10 +232,10 @@ Replace(c, keep, ps, hw) ==
   /\ UNCHANGED <<open, dbOpen, cfg>>
 
 -------------------------------------------------------------------------------
-\* small proposal lists for Replace in the exhaustive runs
-\* (an operator with a parameter: TLC would otherwise enumerate the set when it loads the module)
-PSets(n) == {<<>>} \cup {<< [pid |-> p, recs |-> << r >>] >> : p \in Pids, r \in Recs}
-              \cup {<< [pid |-> p, recs |-> << r >>], [pid |-> q, recs |-> << r2 >>] >> : p \in Pids, q \in Pids, r \in Recs, r2 \in Recs}
+\* small proposal lists for Replace in the exhaustive runs: at most n proposals of one record
+PSets(n) == {<<>>}
+              \cup (IF n >= 1 THEN {<< [pid |-> p, recs |-> << r >>] >> : p \in Pids, r \in Recs} ELSE {})
+              \cup (IF n >= 2 THEN {<< [pid |-> p, recs |-> << r >>], [pid |-> q, recs |-> << r2 >>] >> : p \in Pids, q \in Pids, r \in Recs, r2 \in Recs} ELSE {})
 
 NAppend   == \E c \in Chans, m \in Modes, recs \in Batches : XAppend(c, m, 0, recs)
 NAppendAt == \E c \in Chans, b \in {0, 1}, recs \in Batches : Len(recs) <= 1 /\ XAppend(c, "strict", Leo(c) + b, recs)
@@ -249,7 +250,7 @@ NOpenLease  == \E c \in Chans : XOpenLease(c)
 NCloseLease == \E c \in Chans : XCloseLease(c)
 NExAppend == \E c \in Chans, pid \in Pids, b \in 0..MaxSeq, recs \in Batches, mode \in {"strict", "alloc"}, hw \in {0} \cup HWs :
                 ExAppend(c, pid, b, recs, mode, hw)
-NReplace  == Pids # {} /\ \E c \in Chans, keep \in 0..MaxSeq, ps \in PSets(0), hw \in {0} \cup HWs : Replace(c, keep, ps, hw)
+NReplace  == Pids # {} /\ \E c \in Chans, keep \in 0..MaxSeq, ps \in PSets(MaxRepl), hw \in {0} \cup HWs : Replace(c, keep, ps, hw)
 
 NextX ==
   \/ NAppend \/ NAppendAt \/ NApply \/ NApplyAt \/ NTruncate \/ NAdopt \/ NTrim \/ NCkpt \/ NCkptMono
